@@ -61,7 +61,9 @@ _c('C15', 'Proved for any controller output and released rows: only tick changes
 _c('C17', 'Proved: entering DispatchTrip assigns, leaving it by any instruction unassigns, running out of energy on the way releases the request (repaired code path). '
           'Proved over ALL finite histories of step operations with instructions from any controller (C17_invariant_over_histories, via the macro frame theorem): a waiting request that records '
           'a dispatched vehicle names an existing vehicle whose activity is DispatchTrip to exactly that request. The dispatcher\'s request filter, regenerated from dispatcher.py, never offers a request that already records a vehicle (C17_dispatcher_offers_only_unassigned_requests). '
-          'PARTIAL: "at most one vehicle per request under the built-in dispatcher" additionally needs that the solver pairs distinct requests from the offered list (dispatcher engine).',
+          'Proved over all finite histories whose instruction batches are valid in the state they are applied to (C17_one_vehicle_per_request_over_histories): if in every batch the DispatchTrip instructions target requests recording nobody at the start of the batch '
+          '(what the filter gives: C17_filter_makes_targets_free) and no two target the same request (the assignment solver\'s contract, checked per instance by the dispatcher engine), and rows are admitted under ids no vehicle is travelling to, '
+          'then at most one vehicle is travelling to any waiting request.',
    'Coq proof: state invariant by induction over operation histories (macro frame theorem) + translated assign/unassign kernels; correspondence; monitor')
 _c('C18', 'Proved: the update order is non-queued first then queued sorted by the injective key (enqueue_time, id); every vehicle is processed; of two queued vehicles the earlier is offered a freed plug first. '
           'Proved from any state satisfying the counts invariant (C18_offered_in_queue_order): while the queued vehicles are processed no plug count ever grows, so a vehicle that finds a plug free at its turn implies every '
